@@ -108,7 +108,9 @@ class Types:
             d = dotted(a)
             if d in PRIMS:
                 return ("prim", d)
-            if d in ("Any", "object", "NoReturn", "Never", "Nil"):
+            if d == "Any":
+                return ("any",)
+            if d in ("object", "NoReturn", "Never", "Nil"):
                 return None
             if d == "None":
                 return ("none",)
